@@ -122,10 +122,15 @@ class Vector(Base):
     def norm(self):
         if (self.y is None) and (self.z is None):
             return Array(values=np.abs(self.x.values), unit=self.x.unit, name=self.name)
-        out = self.x.values * self.x.values
-        out += self.y.values * self.y.values
-        if self.z is not None:
-            out += self.z.values * self.z.values
+        # Square the components in floating point (the squares of integers can
+        # overflow), and do not accumulate in place: the components need not have
+        # the same dtype
+        out = None
+        for c in self._xyz.values():
+            vals = np.asarray(c.values)
+            if vals.dtype.kind not in "fc":
+                vals = vals.astype(float)
+            out = vals * vals if out is None else out + vals * vals
         return Array(values=np.sqrt(out), unit=self.x.unit, name=self.name)
 
     @property
@@ -287,12 +292,10 @@ class Vector(Base):
         return Array(values=out, unit=unit)
 
     def cross(self, other):
-        x = self.y * other.z
-        x -= self.z * other.y
-        y = self.z * other.x
-        y -= self.x * other.z
-        z = self.x * other.y
-        z -= self.y * other.x
+        # No in-place subtraction: the two products need not have the same dtype
+        x = self.y * other.z - self.z * other.y
+        y = self.z * other.x - self.x * other.z
+        z = self.x * other.y - self.y * other.x
         return self.__class__(x, y, z)
 
 
